@@ -115,6 +115,10 @@ pub fn calculate_hashes<R: Read>(
                     context.update(&buf[0..read_bytes]);
                 }
             }
+            // a read interrupted by a signal is not an error: try again
+            Err(ref e) if e.kind() == std::io::ErrorKind::Interrupted => {
+                continue
+            }
             e @ Err(_) => e.map(|_| ())?,
         }
     }
